@@ -413,11 +413,8 @@ impl FeelType {
               if !param_self.is_equivalent(&params_other[i]) {
                 return false;
               }
-              if !result_self.is_equivalent(result_other) {
-                return false;
-              }
             }
-            return true;
+            return result_self.is_equivalent(result_other);
           }
         }
         false
@@ -482,11 +479,8 @@ impl FeelType {
               if !parameter_other.is_conformant(&parameters_self[i]) {
                 return false;
               }
-              if !result_self.is_conformant(result_other) {
-                return false;
-              }
             }
-            return true;
+            return result_self.is_conformant(result_other);
           }
         }
         return false;
